@@ -19,7 +19,8 @@ from .sym import Abort, Inconclusive, Sym, SymBool, RV
 
 
 class Ctx:
-    def __init__(self, prefix=(), solver_timeout_ms=20000, abstract_mul=False, seed=0, model=None):
+    def __init__(self, prefix=(), solver_timeout_ms=20000, abstract_mul=False, seed=0, model=None, backend="z3"):
+        self.backend = backend
         self.solver = z3.Solver()
         self.solver.set("timeout", solver_timeout_ms)
         self.solver.set("random_seed", seed)
@@ -90,6 +91,8 @@ class Ctx:
 
     def check_fresh(self, extra=()):
         """non-incremental check of pc + extra (lets z3 pick nlsat etc.)"""
+        if self.backend == "cvc5":
+            return self._cvc5(list(extra))
         t0 = time.time()
         s = z3.Solver()
         s.set("timeout", self.timeout_ms * 3)
@@ -100,8 +103,52 @@ class Ctx:
         self.stats["checks"] += 1
         return r, (s.model() if r == z3.sat else None)
 
+    def _cvc5(self, extra):
+        """discharge pc + extra with the cvc5 binary (QF_FP: bit-blasting in cvc5 is ~20x faster than z3 here)"""
+        import os
+        import re
+        import subprocess
+        import tempfile
+
+        t0 = time.time()
+        s = z3.Solver()
+        s.add(*self.pc)
+        s.add(*extra)
+        names = [n for n in self.var_order if not n.startswith("choice_")]
+        text = "(set-option :produce-models true)\n(set-logic QF_FP)\n" + s.to_smt2()
+        if names:
+            text += "(get-value (%s))\n" % " ".join(names)
+        fd, path = tempfile.mkstemp(suffix=".smt2", prefix="verif_q_")
+        try:
+            with os.fdopen(fd, "w") as f:
+                f.write(text)
+            try:
+                p = subprocess.run(["cvc5", "--tlimit=%d" % self.timeout_ms, path], capture_output=True, text=True,
+                                   timeout=self.timeout_ms / 1000 + 30)
+                out = p.stdout
+            except subprocess.TimeoutExpired:
+                out = "unknown"
+        finally:
+            os.unlink(path)
+        self.stats["solver_s"] += time.time() - t0
+        self.stats["checks"] += 1
+        self.stats["cvc5"] = self.stats.get("cvc5", 0) + 1
+        first = out.strip().splitlines()[0].strip() if out.strip() else "unknown"
+        out_wo = out.replace('(error "Cannot get value unless after a SAT or UNKNOWN response.")', "")
+        if "(error" in out_wo or first not in ("sat", "unsat"):
+            return z3.unknown, None
+        if first == "unsat":
+            return z3.unsat, None
+        vals = {}
+        for n, a, b, c in re.findall(r"\((\w+) \(fp #b([01]) #b([01]+) #b([01]+)\)\)", out):
+            bits = int(a + b + c, 2)
+            vals[n] = z3.fpBVToFP(z3.BitVecVal(bits, 64), z3.Float64())
+        return z3.sat, ValModel([(self.vars[n], z3.simplify(v)) for n, v in vals.items() if n in self.vars])
+
     def feasible(self, cond):
         """(result, model) for pc ∧ cond ; falls back to a fresh solver on unknown."""
+        if self.backend == "cvc5":
+            return self._cvc5([cond])
         r = self._check(cond)
         if r == z3.sat:
             return r, self.solver.model()
@@ -286,12 +333,22 @@ class Ctx:
         return None
 
 
+class ValModel:
+    """model given as variable -> value pairs (from an external solver); eval by substitution"""
+
+    def __init__(self, pairs):
+        self.pairs = pairs
+
+    def eval(self, t, model_completion=True):
+        return z3.simplify(z3.substitute(t, *self.pairs)) if self.pairs else z3.simplify(t)
+
+
 class PathResult:
     __slots__ = ("outcome", "trace", "obligations", "failed", "unknown", "exc", "witness", "outputs", "choices", "stats", "notes")
 
 
 def explore(run, on_path=None, max_paths=20000, deadline=None, solver_timeout_ms=20000, abstract_mul=False, seed=0,
-            stop_on_violation=False):
+            stop_on_violation=False, backend="z3"):
     """Exhaust the decision tree of ``run``.
 
     run(ctx) -> (obligations, outputs) where obligations is a list of (name, SymBool|bool).
@@ -311,7 +368,7 @@ def explore(run, on_path=None, max_paths=20000, deadline=None, solver_timeout_ms
             exhausted = False
             break
         prefix, pmodel = work.pop()
-        ctx = Ctx(prefix, solver_timeout_ms, abstract_mul, seed, pmodel)
+        ctx = Ctx(prefix, solver_timeout_ms, abstract_mul, seed, pmodel, backend)
         sym.set_cur(ctx)
         info = dict(outcome=None)
         try:
@@ -384,6 +441,10 @@ def explore(run, on_path=None, max_paths=20000, deadline=None, solver_timeout_ms
 
 
 def _val(m, t):
+    if z3.is_fp(t):
+        from .symfp import fp_value
+
+        return "float:" + float(fp_value(m, t)).hex()
     v = m.eval(t, model_completion=True)
     if z3.is_int_value(v):
         return str(v.as_long())
